@@ -9,7 +9,7 @@ tables  -- Faults; every fault name raised anywhere (static `RPCError(Faults.X)`
 guards  -- traverse(), _update().
 """
 import ast, os, re
-from extract import Site, REPO, find_func, lean_str
+from extract import Site, Tr, REPO, find_func, lean_str
 
 LEAN_MODULE = 'Rpc'
 IMPORTS = []
@@ -209,13 +209,55 @@ def TABLES():
     return out
 
 
+class TraverseTr(Tr):
+    """expressions of traverse() recognised by their ROLE, not by the names of the locals that hold them, so that a
+    rename of `dotted_parts`, `rpcinterface`, `func`, `namespace` ... does not disturb the extraction:
+        <s>.split('.')                               -> parts      (list)
+        <s>.startswith('_')                          -> underscore (bool)
+        getattr(<first parameter>, <x>, None)        -> nsObj      (opt)   the namespace object
+        getattr(<anything else>, <x>, None)          -> funcObj    (opt)   the attribute looked up on it
+        isinstance(<x>, types.MethodType)            -> isMethod   (bool)"""
+    def __init__(self, site, func):
+        Tr.__init__(self, site, func)
+        self.param0 = func.args.args[0].arg if func.args.args else None
+
+    def role(self, e):
+        n = 0
+        while isinstance(e, ast.Name) and e.id in self.locals and n < 8:
+            e = self.locals[e.id]; n += 1
+        if not isinstance(e, ast.Call):
+            return None
+        f = e.func
+        if isinstance(f, ast.Name) and f.id == 'isinstance' and len(e.args) == 2 and ast.unparse(e.args[1]) in ('types.MethodType', 'MethodType'):
+            return ('isMethod', 'bool')
+        if isinstance(f, ast.Attribute) and f.attr == 'startswith' and len(e.args) == 1 and isinstance(e.args[0], ast.Constant) and e.args[0].value == '_':
+            return ('underscore', 'bool')
+        if isinstance(f, ast.Attribute) and f.attr == 'split' and len(e.args) == 1 and isinstance(e.args[0], ast.Constant) and e.args[0].value == '.':
+            return ('parts', 'list')
+        if isinstance(f, ast.Name) and f.id == 'getattr' and len(e.args) == 3 and isinstance(e.args[2], ast.Constant) and e.args[2].value is None:
+            first = e.args[0]
+            if isinstance(first, ast.Name) and first.id == self.param0:
+                return ('nsObj', 'opt')
+            return ('funcObj', 'opt')
+        return None
+
+    def typ(self, e):
+        r = self.role(e)
+        return r[1] if r else Tr.typ(self, e)
+
+    def expr(self, e):
+        r = self.role(e)
+        return r[0] if r else Tr.expr(self, e)
+
+
+# g0 len(<split>) != 2, g1 <m>.startswith('_'), g2 <namespace object> is None, g3 not isinstance(<attr>, MethodType)
+_traverse = Site('supervisor/xmlrpc.py', 'traverse', 'traverse',
+                 '(parts : List (List Char)) (underscore : Bool) (nsObj funcObj : Option Unit) (isMethod : Bool)',
+                 {}, want={'traverse_g0', 'traverse_g1', 'traverse_g2', 'traverse_g3'})
+_traverse.tr_class = TraverseTr
+
 SITES = [
-    # g0 len(dotted_parts) != 2, g1 method.startswith('_'), g2 rpcinterface is None, g3 not isinstance(func, MethodType)
-    Site('supervisor/xmlrpc.py', 'traverse', 'traverse', '(parts : List (List Char)) (underscore nsPresent isMethod : Bool)',
-         {"method.split('.')": ('parts', 'list'), "method.startswith('_')": ('underscore', 'bool'),
-          'rpcinterface': ('nsPresent', 'truthy:nsPresent'), 'isinstance(func, types.MethodType)': ('isMethod', 'bool'),
-          'rpcinterface is None': ('(!nsPresent)', 'bool')},
-         want={'traverse_g0', 'traverse_g1', 'traverse_g2', 'traverse_g3'}),
+    _traverse,
     # g0: isinstance(mood, int) and mood < SupervisorStates.RUNNING
     Site('supervisor/rpcinterface.py', 'SupervisorNamespaceRPCInterface._update', 'update', '(moodIsInt : Bool) (mood : Int)',
          {'isinstance(self.supervisord.options.mood, int)': ('moodIsInt', 'bool'), 'self.supervisord.options.mood': ('mood', 'int')},
